@@ -1,4 +1,5 @@
 use crate::{rng::Rng, Emit};
+pub mod c01;
 pub mod c02;
 pub mod c03;
 pub mod c05;
@@ -15,10 +16,11 @@ pub fn eval(op: &str, args: &[&str]) -> Option<String> {
     let prop = op.trim_start_matches("p.");
     let prop = prop.split('.').next().unwrap_or("");
     match prop {
+        "c01" | "c06" | "c08" => c01::eval(op, args),
         "c02" => c02::eval(op, args),
         "c03" | "c04" | "c10" => c03::eval(op, args),
         "c05" => c05::eval(op, args),
-        "c07" => c07::eval(op, args),
+        "c07" => if op == "p.c07.native" { c01::eval(op, args) } else { c07::eval(op, args) },
         "c09" => c09::eval(op, args),
         "c11" => c11::eval(op, args),
         "c12" | "c13" | "c14" => c12::eval(op, args),
@@ -30,6 +32,7 @@ pub fn eval(op: &str, args: &[&str]) -> Option<String> {
 
 pub fn generate(prop: &str, thorough: bool, rng: &mut Rng, em: &mut Emit) {
     match prop {
+        "C01" | "C06" | "C08" => c01::generate(prop, thorough, rng, em),
         "C02" => c02::generate(thorough, rng, em),
         "C03" | "C04" | "C10" => c03::generate(prop, thorough, rng, em),
         "C05" => c05::generate(thorough, rng, em),
